@@ -93,6 +93,20 @@ def _exit_obligation(res, fname, kind):
     e = Engine(P, loop_bound=6, timeout_s=180, max_depth=60)
     CW = CompilerWorld(e, P)
     f = P.lookup('compiler::Compiler::' + fname)
+    # the lookup of `self` made by an initialiser's implicit return is summarised by an arbitrary answer (C02.K2.resolve_local
+    # decides the lookup, C02.K2.initializer_returns_self what is emitted from it)
+    sed_ = P.enum_def('compiler::ir::symbol_table::SymbolState')
+    ed_opt_ = P.enum_def('Option')
+
+    def m_resolve_local(e_, a, c):
+        if not e_.fork_bool(z3.Bool(e_.fresh_name('self_found'))):
+            return EnumV('Option<(u8, SymbolState)>', 0, None, None, ed_opt_)
+        stv = z3.BitVec(e_.fresh_name('self_state'), 64)
+        e_.add_constraint(z3.ULT(stv, len(sed_.variants)))
+        k = e_.concretize(stv, list(range(len(sed_.variants))))
+        tup = Struct('()', {0: Cell(z3.BitVec(e_.fresh_name('self_slot'), 8)), 1: Cell(EnumV('compiler::ir::symbol_table::SymbolState', k, None, None, sed_))}, None)
+        return EnumV('Option<(u8, SymbolState)>', 1, {'Some': {0: Cell(tup)}}, None, ed_opt_)
+    e.model(r'^(compiler::)?Compiler::resolve_local$', m_resolve_local)
 
     def path(e):
         c = CW.fresh_compiler(e)
